@@ -1,26 +1,46 @@
 (* Properties_C09.v — threefold() is true exactly when the current position has occurred three times.
-   Proved for EVERY position and history: threefold() = (half-move clock >= 8) and (the current hash occurs at
-   least twice among the history records at distances 2, 4, ... not exceeding the half-move clock nor the stored
-   history) — the loop is a count over the reversible window; a null move empties the window; undo restores
-   earlier answers exactly.
-   STATUS: PARTIAL — "equal hash <-> equal position inside the window" (hash injectivity on the explored
-   histories, a 64-bit collision being the only way to falsify it) and "a position cannot recur within fewer
-   than 8 plies" are not theorems; the statement against counting equal positions (Spec/Game.occurrences) is
-   decided by the correspondence on pendulum / null-pair / irreversible-move histories.  Statements only. *)
+   STATUS: proved CONDITIONALLY on the absence of a 64-bit hash collision inside the current reversible stretch —
+   an explicit hypothesis (collision_free), not an axiom; without it the property is not true of any Zobrist-hash
+   implementation.  For every game played from a start position (history empty, wf, hash consistent — e.g. the result
+   of set_fen: ThreefoldExact.set_fen_start_ok) by moves that are legal in legal-consistent positions, null moves, and
+   undos of both (C09_threefold_exact, C09_threefold_exact_with_undo):
+       threefold p = spec_threefold g      (g the specification's game: current position + earlier positions since the
+                                            last capture, pawn move, null move or start; occurrences counted by
+                                            same_core = placement, side, castling rights held, ep square)
+   including the start-with-positive-clock case and the guard "halfmove >= 8" (a position cannot recur within 2 plies
+   of a reversible stretch, so a third occurrence needs 8 reversible plies: C09_repetition_needs_eight).  Equal
+   positions always have equal hashes (C09_equal_positions_equal_hash).
+   For EVERY position and history, no hypothesis: threefold() as a count over the window; null move empties the window;
+   undo restores earlier answers exactly.  Statements only. *)
 From Coq Require Import NArith List Bool.
-From LC Require Import Bits Types BitboardModel MoveModel ZobristModel PositionModel MakeModel GameModel MakeFacts ThreefoldFacts.
+From LC Require Import Bits Types BitboardModel MoveModel ZobristModel PositionModel MakeModel GameModel MakeFacts ThreefoldFacts Spec.Rules Spec.Game Refine.Abs HashFacts ThreefoldExact.
 Import ListNotations.
 Local Open Scope N_scope.
 
-Theorem C09_partial_scan_is_count : forall p,
+Theorem C09_scan_is_count : forall p,
   threefold p = (8 <=? halfmove p) && (2 <=? occ (hash p) (window (history p) 2 (halfmove p))).
 Proof. exact threefold_scan. Qed.
-Theorem C09_partial_after_null : forall K p, threefold (makenull K p) = false.
+Theorem C09_after_null : forall K p, threefold (makenull K p) = false.
 Proof. exact threefold_after_null. Qed.
-Theorem C09_partial_undo_restores : forall K p m, move_fields_ok p m -> threefold (undomove (makemove K p m)) = threefold p.
+Theorem C09_undo_restores : forall K p m, move_fields_ok p m -> threefold (undomove (makemove K p m)) = threefold p.
 Proof. exact threefold_after_undo. Qed.
-Theorem C09_partial_undonull_restores : forall K p, threefold (undonull (makenull K p)) = threefold p.
+Theorem C09_undonull_restores : forall K p, threefold (undonull (makenull K p)) = threefold p.
 Proof. exact threefold_after_undonull. Qed.
 
-Print Assumptions C09_partial_scan_is_count. Print Assumptions C09_partial_after_null.
-Print Assumptions C09_partial_undo_restores. Print Assumptions C09_partial_undonull_restores.
+Theorem C09_threefold_exact : forall K p0 p g, start_ok K p0 -> play K p0 p g -> collision_free K g -> threefold p = spec_threefold g.
+Proof. exact threefold_exact. Qed.
+Theorem C09_threefold_exact_with_undo : forall K p0 p g k st,
+  start_ok K p0 -> hreach K p0 p ((g, k) :: st) -> collision_free K g -> threefold p = spec_threefold g.
+Proof. exact threefold_exact_undo. Qed.
+Theorem C09_equal_positions_equal_hash : forall K a b, same_core a b = true -> key_hash K a = key_hash K b.
+Proof. exact same_core_key. Qed.
+Theorem C09_hash_is_key_hash : forall K p, wf p = true -> hash_ok K p -> hash p = key_hash K (abs p).
+Proof. exact hash_abs. Qed.
+Theorem C09_repetition_needs_eight : forall K p0 p g, start_ok K p0 -> play K p0 p g -> spec_threefold g = true ->
+  (8 <= length (g_past g))%nat /\ 8 <= halfmove p.
+Proof. exact repetition_needs_eight. Qed.
+
+Print Assumptions C09_threefold_exact. Print Assumptions C09_threefold_exact_with_undo. Print Assumptions C09_equal_positions_equal_hash.
+Print Assumptions C09_hash_is_key_hash. Print Assumptions C09_repetition_needs_eight.
+Print Assumptions C09_scan_is_count. Print Assumptions C09_after_null.
+Print Assumptions C09_undo_restores. Print Assumptions C09_undonull_restores.
